@@ -161,7 +161,8 @@ impl BackoffStorage {
                     Some(backoff_time) => backoff_time
                         .checked_add(slack)
                         .map(|backoff| backoff > now)
-                        .unwrap_or(false),
+                        // not representable means later than any `now`: the backoff is not over
+                        .unwrap_or(true),
                     None => false,
                 };
                 if !keep {
